@@ -484,9 +484,17 @@ func ResolveExternalLocation(
 		// Check for redirect loops
 		_, hasLocation := metaGet(recMeta, MetaLocation)
 		if hasLocation && rec.NumRows() == 0 {
+			if resolvedBatch != nil {
+				resolvedBatch.Release()
+			}
 			return batch, meta, fmt.Errorf("external location redirect loop detected")
 		}
 		rec.Retain()
+		if resolvedBatch != nil {
+			// A later data batch replaces an earlier one; drop the
+			// reference taken on the one being replaced.
+			resolvedBatch.Release()
+		}
 		resolvedBatch = rec
 	}
 
@@ -583,14 +591,23 @@ func redactExternalURL(rawURL string) string {
 }
 
 // batchMetadata extracts custom metadata from a record batch.
+//
+// The framework's vgi_rpc.* keys travel as the batch's *custom* metadata
+// (array.NewRecordBatchWithMetadata on the way out; the IPC reader hands them
+// back on the record), not in the schema's metadata. Schema metadata is kept
+// as a fallback for streams written by peers that annotate the schema instead.
 func batchMetadata(rec arrow.RecordBatch) arrow.Metadata {
+	if rb, ok := rec.(arrow.RecordBatchWithMetadata); ok {
+		if md := rb.Metadata(); md.Len() > 0 {
+			return md
+		}
+	}
 	if rec.Schema().HasMetadata() {
 		return rec.Schema().Metadata()
 	}
 	return arrow.Metadata{}
 }
 
-// metaGet returns the value for a key in Arrow metadata, or ("", false).
 func metaGet(meta arrow.Metadata, key string) (string, bool) {
 	idx := meta.FindKey(key)
 	if idx < 0 {
